@@ -1391,7 +1391,7 @@ def file_case(ctx, fc0, cases, impls, real=False, attempt=0):
     here = os.path.join(ctx.scratch, 'f%d' % n)
     os.makedirs(os.path.join(here, 'inh'))
     ports = []
-    for _ in range(4):
+    for _ in range(6):
         probe = socket.socket(); probe.bind(('127.0.0.1', 0)); ports.append(probe.getsockname()[1]); probe.close()
     fc = fc_resolve(fc0, here, ports)
     names = fc_section_names(fc)
@@ -1474,6 +1474,8 @@ def file_case(ctx, fc0, cases, impls, real=False, attempt=0):
             raise
         if attempt < 3:
             return file_case(ctx, fc0, cases, impls, real, attempt + 1)      # a probed port was taken meanwhile: other ports
+        if any(v['kind'] == 'server-address-not-as-configured:file' and v['input'].get('file_case') is fc0 for v in ctx.violations):
+            return           # two servers were made for one address, neither the configured one (reported above)
         from framework import Infra
         raise Infra('could not open the servers of a generated file: %r' % ex)
     css = open(os.path.join(os.path.dirname(supervisor.__file__), 'ui', 'stylesheets', 'supervisor.css'), 'rb').read()
@@ -1685,7 +1687,7 @@ def fc_addr(rng, fc, kind, k, how):
         return [['e', 'SOCKDIR%d' % k], ['l', '/s%d.sock' % k]]
     if how in ('lit', 'here'):
         return [['l', '127.0.0.1:{port%d}' % k]]
-    fc_bind(fc, 'PORT%d' % k, how, '{port%d}' % k, '{port3}', split=7)
+    fc_bind(fc, 'PORT%d' % k, how, '{port%d}' % k, '{port%d}' % (k + 3), split=7)
     return [['l', '127.0.0.1:'], ['e', 'PORT%d' % k]]
 
 
